@@ -302,6 +302,17 @@ class Algebra:
                         if _is_agg(v, ERR):
                             out.append((at, ("agg", ERR, (("call", "From::from", (v[2][0],), ()),)) if conv else v))
                     return out
+            if c in ("core::bool::<impl bool>::then", "core::bool::<impl bool>::then_some") and len(a) == 2:
+                # `cond.then(|| v)` is `if cond { Some(v) } else { None }`
+                out = []
+                if c.endswith("then_some"):
+                    vals = [((), a[1])]
+                else:
+                    vals = self.apply(a[1], [])
+                for at2, w in vals:
+                    out.append((((a[0], True),) + at2, ("agg", SOME, (w,))))
+                out.append((((a[0], False),), ("agg", NONE, ())))
+                return out
             if c == "darling_core::error::Accumulator::finish_with" and len(a) == 2:
                 # `errors.finish_with(v)` is `errors.finish().map(|()| v)` (C05.finish.delegates / finish_with case table)
                 fin = ("call", "darling_core::error::Accumulator::finish", (a[0],), ())
